@@ -22,6 +22,7 @@ func init() {
 			"(4) zstd-gate: in compressor.Compress every store to the switch tag takes the range variable of c.options at a point where `option == CodecZstd && disableZstd` is known false; disableZstd is set (only to true) under flag == CompressDisableZstd while ranging over all flags without early exit; " +
 			"(5) level-validated: a constructor call in a pool New closure whose error is discarded and whose arguments depend on the user supplied level is reachable only with a level that passed a probe call of the same constructor with the same expression (err == nil), or (gzip) lies within [gzip.HuffmanOnly, gzip.BestCompression]; " +
 			"(6) pool-discipline (Compress, Decompress and every function of package kgo that takes a buffer from the shared byteBuffers pool - sink appendTo/appendToAsMessageSet, the basic logger; a Get that is not a plain `x := byteBuffers.Get().(T)` in the function body is undecided): each pool.Get().(T) asserts the type the pool's New returns, is followed on every path by defer Put of the same object to the same pool, streaming readers/writers and buffers are Reset (buffers: Reset or Truncate(0); writers onto dst, readers onto src) before any other use on every path (a Reset inside a deferred closure does not count), writers are Closed with every Write/Close error checked before dst.Bytes() is read, and the whole src is written; " +
+			"(6b) attrs-reset: every read-modify-write store (|= ...) to recBatch.attrs is dominated in the same call by a plain store that does not read the field, so codec bits of an earlier serialisation of the shared batch never mix with the codec reported now; compress-dst-fresh: at every call site of Compressor.Compress the dst argument is a fresh buffer expression or a local variable whose last event on every path is a fresh construction or Reset()/Truncate(0) (no write, pool Get or earlier Compress in between); " +
 			"(7) compression-bounds: every index, slice, binary.BigEndian call and make in xerialDecode, Decompress, Compress, DefaultCompressor and DefaultDecompressor is proven in bounds from dominating guards (xerialDecode under the entry fact len(src) >= 16 which is proven at every call site; the de-duplication loop by the compaction-loop invariant keepIdx <= iteration index).",
 		NotDecided: "value-level round trips (that decompress(compress(x)) == x), interoperability of the produced bytes with other implementations beyond the choice of library entry point, the behaviour of the codec libraries themselves (that LimitReader, DecodedLen and WithDecoderMaxMemory bound what they are documented to bound, that Reset fully clears reader/writer state), user supplied Compressor/Decompressor/Pool implementations, and the non-emptiness of compressor.options after de-duplication (argued by hand, recorded as an exemption).",
 		Assumptions: []string{
@@ -253,6 +254,8 @@ func runC19(c *Ctx) {
 	e.ruleLevel(fDC)
 	e.rulePools(fC, fD)
 	e.ruleBounds(fD, fX)
+	e.ruleAttrsReset()
+	e.ruleCompressDst()
 	c19dump(c)
 }
 
